@@ -50,6 +50,9 @@ structure XExt where
   validWal : Bytes → Bool
   /-- SQLite checkpointing the WALs into the database -/
   replay   : Bytes → List Bytes → Bytes
+  /-- whether SQLite's checkpoint and the plan's integrity check (VerifyDB) go through on these
+  files (they can refuse a damaged database on their own) -/
+  replayOk : Bytes → List Bytes → Bool := fun _ _ => true
 
 structure Store where
   files   : List DataFile
@@ -143,6 +146,7 @@ def resumePlan (E : XExt) (s : Store) : Store × ReapRes :=
     | db :: wals =>
       let inputs := if consumed = 0 then db :: wals else wals
       if !inputs.all (fileCrcOk E) then (s, .err)
+      else if !E.replayOk db.content (wals.map (·.content)) then (s, .err)
       else
         let out := E.replay db.content (wals.map (·.content))
         ({ s with plan := none,
@@ -212,7 +216,7 @@ def stepOfCall (c : String) : Option Step :=
 `new` → ok;  `file db|wal|olddb|oldwal <snapdir#> <contenthex> <side>` → ok   (side: `c<decimal>` | `d` | `b`)
 `setc <i> <hex>` / `sets <i> <side>` → ok | bad-op    (late or early corruption of file i)
 `ensure` → ok | err
-`plan <k>` → ok (an interrupted reap plan is on disk, k chain WALs already consumed);  `resume <replayhex>` → err | noop | ok
+`plan <k>` → ok (an interrupted reap plan is on disk, k chain WALs already consumed);  `resume <replayhex | sqlite-refuses>` → err | noop | ok
 `open` → `err` | `ok <size:crc,…> accept=<bool>`
 `reap <replayhex>` → err | noop | ok   (`replayhex`: what SQLite's checkpoint of the current
                                          files yields; used as the value of `replay`) -/
@@ -220,8 +224,8 @@ def stepOfCall (c : String) : Option Step :=
 structure DState where
   s : Store := { files := [] }
 
-def drvX (rep : Bytes) : XExt :=
-  { crc := crc32c, validDb := validDbC, validWal := validWalC, replay := fun _ _ => rep }
+def drvX (rep : Bytes) (ok : Bool := true) : XExt :=
+  { crc := crc32c, validDb := validDbC, validWal := validWalC, replay := fun _ _ => rep, replayOk := fun _ _ => ok }
 
 def sideTok (t : String) : Option Sidecar :=
   if t == "d" then some .disabled
@@ -266,9 +270,9 @@ def step (d : DState) (line : String) : DState × String :=
     | some k => ({ s := { d.s with plan := some k } }, "ok")
     | none => (d, "bad-op")
   | ["resume", rep] =>
-    match tokBytes rep with
-    | some rep =>
-      let (s', r) := resumePlan (drvX rep) d.s
+    match (if rep == "sqlite-refuses" then some ([], false) else (tokBytes rep).map (fun b => (b, true))) with
+    | some (rep, ok) =>
+      let (s', r) := resumePlan (drvX rep ok) d.s
       ({ s := s' }, match r with | .err => "err" | .noop => "noop" | .ok => "ok")
     | none => (d, "bad-op")
   | ["ensure"] =>
